@@ -184,6 +184,27 @@ def has_macro(n, name):
 
 
 def diverges(e):
-    """Expression has type `!` (panics, returns, breaks)."""
+    """Expression never completes normally (type `!`, or a block ending in a
+    return/break/continue/diverging expression)."""
     e = strip(e)
-    return isinstance(e, dict) and e.get("ty") == "!"
+    if not isinstance(e, dict):
+        return False
+    if e.get("ty") == "!":
+        return True
+    k = e.get("k")
+    if k in ("ret", "break", "continue"):
+        return True
+    if k == "semi":
+        return diverges(e["e"])
+    if k == "block":
+        if e.get("expr") is not None:
+            return diverges(e["expr"])
+        for s in e.get("stmts") or []:
+            if diverges(s):
+                return True
+        return False
+    if k == "if":
+        return e.get("else") is not None and diverges(e["then"]) and diverges(e["else"])
+    if k == "match":
+        return bool(e["arms"]) and all(diverges(a["body"]) for a in e["arms"])
+    return False
